@@ -351,3 +351,9 @@ package runtime
 //@ requires n != nil
 //@ ensures result == n.name
 //@ assigns \nothing
+
+// ---------------------------------------------------------------- values.go (C03): the value source of a parameter location
+
+//@ func (Values).GetOK
+//@ ensures [C03:getok] (hasKey <==> in(key, v)) && (hasKey ==> value == mapat(v, key)) && (!hasKey ==> value == nil) && (hasValue <==> hasKey && len(value) > 0)
+//@ assigns \nothing
